@@ -808,6 +808,14 @@ def run_sender_case(rng, budget=70, adversarial=False):
     required = [c['cid'] for c in w.consumers if rng.random() < 0.3]
     if rng.random() < 0.1:
         required.append(9)    # a required output that never shows up
+    if not getattr(w, "plan", None) and rng.random() < 0.12:
+        # two consumers whose names are in a prefix relation ('c1' and 'c12': 'view' and 'view2'); the shorter name is a required
+        # output, and the other one being there is not the same as it being there
+        w.consumers[0].update(cid=rng.choice([12, 10, 19]), eph=0)
+        if 1 not in required:
+            required.append(1)
+        if len(w.consumers) > 1 and rng.random() < 0.7:
+            w.consumers[1].update(cid=1, eph=0)
     calls = []
     with simzmq.Patched(w):
         addrs = ['tcp://*:%d' % (7000 + 2 * i) for i in range(nout)]
